@@ -15,7 +15,11 @@
 
    Which calls reach Open(): a sending call reaches SendMsg, which calls Open() when the node is not open ([osend] = [open_first]
    followed by the sender; [send_heartbeat_api_dev] calls [open_first] itself).  SendIsoAddressClaim with a positive delay only arms
-   the delayed claim and does not send; the setters and Restart() never call Open() ([api_calls_open]). *)
+   the delayed claim and does not send; the setters and Restart() never call Open() ([api_calls_open]).
+
+   ExtendTransmitMessages / ExtendReceiveMessages / SetHandleOnlyKnownMessages / SetProductInformation at run time ([ASetTxList],
+   [ASetRxList], [ASetOnlyKnown], [ASetProductInformation]) are included in every statement: they are silent changes (no event; mode,
+   addresses, claim timers, open state, clock, queue and driver are left alone; only d_tx / x_rx / r_cfg change) and never call Open(). *)
 From Coq Require Import ZArith List Bool.
 From N2kV Require Import Base.ListAux Model.CanId Model.Sched Model.PgnClass Model.NodeDefs Model.NodeRxDefs Model.ApiDefs Gen.GenTables Gen.GenConsts
   Spec.SendSpec Spec.GateSpec.
@@ -35,8 +39,9 @@ Definition x_is_set_mode (o:xop) : bool := match o with XBase _ => false | XApi 
    state in which it is handed over (the node is open and not listen-only, the source is the current address of one of its devices,
    and unless the frame is an ISO address claim that device's claim is not pending and the address is usable); everything else it
    does is a silent change that closes no claim window and takes no address without opening one.  In particular
-   SetDeviceInformationInstances / SetDeviceInformation (NAME changes), the delayed SendIsoAddressClaim (arms the delayed claim) and the
-   PGN list setters are silent; Restart() is StartAddressClaim for every device. *)
+   SetDeviceInformationInstances / SetDeviceInformation (NAME changes), the delayed SendIsoAddressClaim (arms the delayed claim), the
+   PGN list setters (node-wide and per device), SetHandleOnlyKnownMessages and SetProductInformation are silent; Restart() is
+   StartAddressClaim for every device. *)
 Definition api_produced_frames_entitled_stmt : Prop :=
   forall r a r' ev, api_step r a = (r', ev) -> is_set_mode a = false -> clock_ok (rn r) ->
     exists p, Run false (rn r) ev p (rn r').
@@ -82,7 +87,8 @@ Definition api_calls_open (a:api) : bool :=
   match a with
   | ASendClaim _ _ delay => negb (0 <? delay)
   | ASendProd _ | ASendConf _ | ASendTxList _ _ _ | ASendRxList _ _ _ | ASendHeartbeatAll _ | ASendHeartbeatDev _ => true
-  | ASetInstances _ _ _ _ | ASetDeviceInformation _ _ _ _ _ _ | ARestart | ASetMode _ _ | ASetPgnList _ _ => false
+  | ASetInstances _ _ _ _ | ASetDeviceInformation _ _ _ _ _ _ | ARestart | ASetMode _ _ | ASetPgnList _ _
+  | ASetTxList _ _ | ASetRxList _ _ | ASetOnlyKnown _ | ASetProductInformation _ _ _ _ _ _ _ _ => false
   end.
 Definition api_not_open_silent_stmt : Prop :=
   forall r a r' ev, api_step r a = (r', ev) ->
